@@ -58,8 +58,19 @@ from typing import Any, Dict, List, Optional, Sequence, Tuple
 
 from . import common as C
 
-TYPE_IDS = [4001, 4002, 4003]          # 8-byte, 16-byte and 0-byte (signal) payloads
-TYPE_SIZES = [8, 16, 0]
+TYPE_IDS = [4001, 4002, 4003, 0, 1]    # 8-byte, 16-byte and 0-byte (signal) payloads; the core signals EXIT (0), KILL (1)
+TYPE_SIZES = [8, 16, 0, 0, 0]
+ZERO_PAD = 3                           # the data logger passes a fixed-size, zero-padded array as `msg_types`
+
+
+def real_types(types) -> List[int]:
+    """what `DataSet.__init__` is given for a selection of the harness: ALL_MESSAGE_TYPES or the type ids, followed by
+    the zero padding of `MDF_ADD_DATA_SET.msg_types` (the code drops entries <= 0: the padding is not a request for
+    message type 0, so a data set never selects EXIT unless it selects everything)"""
+    if types == "A":
+        return [2147483647]
+    assert 3 not in types, "type id 0 cannot be selected by a list (it is the padding value)"
+    return [TYPE_IDS[t] for t in types] + [0] * ZERO_PAD
 FORMATS = ["raw", "json", "quicklogger", "msg_header"]
 
 DEFS_SRC = '''"""hand-written message definitions for the C17 harness (same shape as pyrtma.compile output)"""
@@ -166,7 +177,8 @@ def env() -> Dict[str, Any]:
     dcm.print = lambda *a, **k: None  # the writer prints when it exits
     _ENV.update(dict(pyrtma=pyrtma, dcm=dcm, DataSet=DataSet, LoggingMetadata=LoggingMetadata,
                      get_formatter=get_formatter, QLReader=QLReader, dir=d, defs=defs, mod=mod,
-                     types=[mod.MDF_VDL_A, mod.MDF_VDL_B, mod.MDF_VDL_C],
+                     types=[mod.MDF_VDL_A, mod.MDF_VDL_B, mod.MDF_VDL_C, pyrtma.core_defs.MDF_EXIT,
+                            pyrtma.core_defs.MDF_KILL],
                      hdr_cls=pyrtma.get_header_cls()))
     if own:
         import atexit
@@ -407,7 +419,7 @@ class WarnCounter(logging.Handler):
 # decoding the files a data set left behind
 # ------------------------------------------------------------------------------------------------
 
-def ql_read(path: str) -> List[Tuple[Optional[bytes], Optional[bytes]]]:
+def ql_read(path: str, both: bool = False) -> List[Tuple[Optional[bytes], Optional[bytes]]]:
     """`QLReader.load` as a user calls it (default arguments; one reader object per process, used for file after file).
     Every message type the harness records is defined in the definitions module, so a message the reader *skips* as
     unknown is a message it failed to give back: it counts as undecodable, as does a disagreement between the three
@@ -429,6 +441,16 @@ def ql_read(path: str) -> List[Tuple[Optional[bytes], Optional[bytes]]]:
     if [(bytes(m.header), bytes(m.data)) for m in rd.messages] != out or len(rd.headers) != len(rd.data):
         out.append((None, b"headers/data/messages disagree"))
     out += [(None, b"skipped as unknown")] * int(rd.skipped or 0)
+    if both:
+        # the other value of the reader's option: with every type defined it must give the same messages
+        n0 = len(sys.path)
+        try:
+            rd.load(path, E["defs"], skip_unknown=False)
+        finally:
+            while len(sys.path) > n0:
+                sys.path.pop(0)
+        if [(bytes(h), bytes(d)) for h, d in zip(rd.headers, rd.data)] != out or len(rd.messages) != len(out):
+            out.append((None, b"load(skip_unknown=False) gives other messages than load()"))
     return out
 
 
@@ -493,10 +515,12 @@ def csv_read(text: str) -> List[Tuple[Optional[bytes], Optional[bytes]]]:
     return out
 
 
-def decode_file(fmt: str, path: str) -> List[Tuple[Optional[bytes], Optional[bytes]]]:
+def decode_file(fmt: str, path: str, both: bool = False) -> List[Tuple[Optional[bytes], Optional[bytes]]]:
+    """`both`: quicklogger files are read twice, with the default arguments and with `skip_unknown=False` (format
+    cases and multi-session runs; the scheduled cases read once, with the defaults)"""
     try:
         if fmt == "quicklogger":
-            return ql_read(path)
+            return ql_read(path, both)
         if fmt == "raw":
             return raw_read(open(path, "rb").read())
         if fmt == "json":
@@ -572,8 +596,8 @@ def run_sched_case(case: Dict[str, Any]) -> Dict[str, Any]:
             if ctl.started:
                 ctl.wait_arrival()                   # the writer is parked at its first gate (or has ended)
             for i, d in enumerate(case["ds"]):
-                types = [2147483647] if d["types"] == "A" else [TYPE_IDS[t] for t in d["types"]]
-                ds = E["DataSet"]("c", f"ds{i}", f"ds{i}", "f", E["get_formatter"](d["fmt"]), d["interval"], types, md)
+                ds = E["DataSet"]("c", f"ds{i}", f"ds{i}", "f", E["get_formatter"](d["fmt"]), d["interval"],
+                                  real_types(d["types"]), md)
                 _wrap(ctl, ds, i)
                 dc.add_data_set(ds)
                 dsets.append(ds)
@@ -776,14 +800,18 @@ def hx(b: bytes) -> str:
 def run_fmt_case(fmt: str, types: Sequence[int], part: Sequence[int], last: int) -> Dict[str, Any]:
     """Drive the real formatter class directly: write(batch) for each size in `part`, then finalize(last batch)."""
     E = env()
-    cls = E["get_formatter"](fmt)
-    d = tempfile.mkdtemp(prefix="pyrtma_verif_dlfmt_")
-    path = os.path.join(d, "f" + cls.ext)
     msgs = [mk_msg(t, k + 1) for k, t in enumerate(types)]
     out: Dict[str, Any] = {"fmt": fmt, "msgs": [key_of(m) for m in msgs], "part": list(part), "last": last,
                            "exc": None}
     if fmt == "json":
         out["json"] = [m.to_json(minify=True) for m in msgs]
+    try:
+        cls = E["get_formatter"](fmt)
+    except Exception as e:  # noqa: BLE001   (the registry of formatters is part of the code under test)
+        out.update(exc="get_formatter:" + type(e).__name__, file=b"", read=[])
+        return out
+    d = tempfile.mkdtemp(prefix="pyrtma_verif_dlfmt_")
+    path = os.path.join(d, "f" + cls.ext)
     try:
         fd = open(path, cls.mode)
         try:
@@ -798,7 +826,7 @@ def run_fmt_case(fmt: str, types: Sequence[int], part: Sequence[int], last: int)
         finally:
             fd.close()
         out["file"] = open(path, "rb").read()
-        out["read"] = decode_file(fmt, path)
+        out["read"] = decode_file(fmt, path, both=True)
     finally:
         shutil.rmtree(d, ignore_errors=True)
     return out
@@ -911,7 +939,7 @@ def multi_session_check(fmt: str = "raw", flush_every_update: bool = False, sess
                 # the data set's file(s) of this recording
                 paths = sorted(str(p) for p in Path(base).rglob(f"rec{si}*"))
                 for pth in paths:
-                    for kk in decode_file(fmt, pth):
+                    for kk in decode_file(fmt, pth, both=True):
                         got.append(keys.get(kk, ("foreign", kk[0][:8].hex() if kk[0] else None)))
                 out["sessions"].append({"sent": sent, "read": got, "files": [os.path.basename(p) for p in paths]})
                 not_recording()                  # after stop(): dropped, and harmless for the next recording
